@@ -44,7 +44,6 @@ type caseSpec struct {
 var (
 	retryableStatuses = []int{408, 429, 500, 502, 503, 504}
 	finalStatuses     = []int{400, 403, 404, 405, 409, 416}
-	fatalKinds        = []string{"err", "neterr", "eof"}
 	enumAlphabet      = []string{"401basic", "401bearer", "RS", "429RA", "timeout", "fatal", "final", "ok"}
 	enumBodies        = []string{"none", "bytes", "oneshot"}
 	enumRetries       = []int{0, 1, 2}
@@ -73,13 +72,15 @@ func concrete(rng *rand.Rand, class string) outcome {
 		o.Kind, o.Status = "status", 429
 		o.RetryAfter = []string{"1", "2", "120", "86400"}[rng.IntN(4)]
 	case "fatal":
-		o.Kind = fatalKinds[rng.IntN(len(fatalKinds))]
+		o.Kind, o.Err = "fatal", fatalVariants[rng.IntN(len(fatalVariants))]
+	case "timeout":
+		o.Kind, o.Err = "timeout", timeoutVariants[rng.IntN(len(timeoutVariants))]
 	case "final":
 		o.Kind, o.Status = "status", finalStatuses[rng.IntN(len(finalStatuses))]
 	case "ok":
 		o.Kind, o.ReadPermille = "ok", -1
 	default:
-		o.Kind = class // 401basic, 401bearer, 401none, timeout
+		o.Kind = class // 401basic, 401bearer, 401none
 	}
 	return o
 }
@@ -773,6 +774,8 @@ func outcomeClass(o outcome) string {
 	switch o.Kind {
 	case "status":
 		return fmt.Sprint(o.Status)
+	case "fatal", "timeout":
+		return o.Kind + ":" + o.Err
 	}
 	return o.Kind
 }
